@@ -62,11 +62,14 @@ def run(ctx):
     env = {"VERIF_BEH": bf, "VERIF_TRACE_OUT": tr, "VERIF_C19_NGEN": 30 if ctx.quick() else 120}
     rc, out = go_test(ctx, "rest", "^TestVerif_C19_BodyPaths$", ["harness/rest/c19_bodypaths_test.go"], env=env,
                       timeout=1500 if ctx.quick() else 3000)
+    for ln in out.splitlines():
+        if ln.startswith("VERIF-C19"):
+            log("  " + ln)
     if rc != 0 or not os.path.exists(tr) or not os.path.exists(tr + ".meta"):
         raise Inconclusive("C19 harness failed:\n" + harness_failure(out))
     rows = read_ndjson(tr)
     meta = json.load(open(tr + ".meta"))
-    reads = [x for x in rows if x["a"] == "Read"]
+    reads = [x for r_ in rows if r_["a"] == "Reads" for x in r_["items"]]
     resv = [x for x in rows if x["a"] == "WriteReserved"]
     writes = [x for x in rows if x["a"] in ("Create", "Supersede", "Branch")]
     ctx.cov["evaluations"] += len(reads) + len(resv)
@@ -77,6 +80,7 @@ def run(ctx):
         "behaviours": len(behs), "instances": meta["instances"], "tokens": len(meta["tokens"]),
         "matrix_cells_declared": len(matrix), "matrix_cells_observed_200": len(cells_real & matrix),
         "read_cases": len(reads), "reserved_cases": len(resv), "body_writes": len(writes),
+        "path_pair_x_token_cases": len({(x["wp"], x["rp"], x["tokId"]) for x in reads if x["status"] == 200}),
         "refused_body_writes": [list(x) for x in refused][:40],
         "lenient_reserved_outcomes": sorted({"%s/%s/%s->%s" % (x["wp"], x["cls"], x["mode"], x["status"]) for x in resv
                                              if x["cls"] in ("id_nonstring", "deleted_nonbool", "attachments_badtype", "exp_null")
@@ -92,29 +96,34 @@ def run(ctx):
         ctx.sample({k: v for k, v in x.items() if k != "diff"})
 
     # ---- pass P: property predicates on the recorded facts; every violating instance is reported (-continue)
-    viols, hwm = validate_all(ctx, "Trace_BodyPaths_P.cfg", tr, "P")
-    shape = [v for v in viols if v[0] not in PROPERTY_INVS]
+    viols, bads, hwm = validate_all(ctx, "Trace_BodyPaths_P.cfg", tr, "P")
+    shape = [v for v in viols if v[0] not in ("FidelityR", "ReservedRejected")]
     if shape:
-        raise Inconclusive("pass P: trace shape not accepted (%s at line %s: %s)" % (shape[0][0], shape[0][1], rows[shape[0][1] - 1] if shape[0][1] else None))
+        raise Inconclusive("pass P: trace shape not accepted (%s at line %s: %s)" % (shape[0][0], shape[0][1], str(rows[shape[0][1] - 1])[:600] if shape[0][1] else None))
+    if any(v[0] == "FidelityR" for v in viols) and not bads:
+        raise Inconclusive("pass P: Fidelity violated but no failing item was printed")
     bad_instances = set()
+    for line, n in bads:
+        row = rows[line - 1]["items"][n - 1]
+        inst = instance_of(rows, line)
+        bad_instances.add(inst.get("inst"))
+        key = "Fidelity|wp=%s|rp=%s|cls=%s" % (row.get("wp"), row.get("rp"), row.get("tokCls"))
+        what = ("read path %s (kind %s, cache %s) of a body written through %s did not return the written JSON value: token %s, status %s, valid %s, "
+                "got token #%s expected #%s, added keys %s, first difference %s"
+                % (row.get("rp"), row.get("kind"), row.get("cache"), row.get("wp"), row.get("tokId"), row.get("status"), row.get("valid"),
+                   row.get("got"), row.get("expect"), row.get("extra"), json.dumps(row.get("diff"))[:400]))
+        report_violation(ctx, key, what, replay(rows, line, row, inst, meta, "Fidelity", ctx))
     for inv, line in viols:
+        if inv != "ReservedRejected":
+            continue
         row = rows[line - 1] if line and line <= len(rows) else {}
         inst = instance_of(rows, line)
         bad_instances.add(inst.get("inst"))
-        if inv == "Fidelity":
-            key = "Fidelity|wp=%s|rp=%s|cls=%s" % (row.get("wp"), row.get("rp"), row.get("tokCls"))
-            what = ("read path %s (kind %s, cache %s) of a body written through %s did not return the written JSON value: token %s, status %s, valid %s, "
-                    "got token #%s expected #%s, added keys %s, first difference %s"
-                    % (row.get("rp"), row.get("kind"), row.get("cache"), row.get("wp"), row.get("tokId"), row.get("status"), row.get("valid"),
-                       row.get("got"), row.get("expect"), row.get("extra"), json.dumps(row.get("diff"))[:400]))
-        else:
-            key = "ReservedRejected|wp=%s|cls=%s" % (row.get("wp"), row.get("cls"))
-            what = ("reserved property class %s through %s (%s mode) was not refused cleanly: status %s, stored=%s, GET afterwards %s"
-                    % (row.get("cls"), row.get("wp"), row.get("mode"), row.get("status"), row.get("stored"), row.get("getStatus")))
-        report_violation(ctx, key, what, {"invariant": inv, "instance": inst, "events": instance_rows(rows, line), "failing": row,
-                                          "token_texts": {t["id"]: t.get("text") for t in meta["tokens"] if t["id"] in (inst.get("toks") or [])},
-                                          "seed": ctx.seed})
-    if not viols and hwm != len(rows):
+        key = "ReservedRejected|wp=%s|cls=%s" % (row.get("wp"), row.get("cls"))
+        what = ("reserved property class %s through %s (%s mode) was not refused cleanly: status %s, stored=%s, GET afterwards %s"
+                % (row.get("cls"), row.get("wp"), row.get("mode"), row.get("status"), row.get("stored"), row.get("getStatus")))
+        report_violation(ctx, key, what, replay(rows, line, row, inst, meta, inv, ctx))
+    if not viols and hwm < len(rows):     # (PNotStuck already demands that every line of every instance is accepted)
         raise Inconclusive("pass P consumed %s of %s lines" % (hwm, len(rows)))
     if bad_unobs:
         raise Inconclusive("read cells could not be observed: %s" % bad_unobs[:5])
@@ -125,12 +134,12 @@ def run(ctx):
         ctx.notes.append("pass C skipped for %d instance(s) with property violations" % len(bad_instances))
         ctx.cov["traces_validated_against_impl"] += ninst - len(bad_instances)
     else:
-        cviol, chwm = validate_all(ctx, "Trace_BodyPaths_C.cfg", tr, "C")
+        cviol, _, chwm = validate_all(ctx, "Trace_BodyPaths_C.cfg", tr, "C")
         stuck = {instance_of(rows, line).get("inst") for _, line in cviol}
-        if cviol or chwm != len(rows):
+        if cviol or chwm < len(rows):
             ctx.cov["nonconformance"] += max(1, len(stuck))
             inv, line = cviol[0] if cviol else ("unconsumed", None)
-            ctx.notes.append("pass C rejected %d instance(s); first: %s at line %s: %s" % (len(stuck), inv, line, rows[line - 1] if line else None))
+            ctx.notes.append("pass C rejected %d instance(s); first: %s at line %s: %s" % (len(stuck), inv, line, str(rows[line - 1])[:500] if line else None))
         ctx.cov["traces_validated_against_impl"] += ninst - len(stuck)
     ctx.cov["rule"] = ("one evaluation = one (behaviour, token binding, read cell) or one reserved-property write on the real gateway; "
                        "non-trivial = distinct (write path, kind, read path, cache, token) whose read returned a body (status 200) that TLC compared with the written token")
@@ -149,24 +158,27 @@ def instance_of(rows, line):
     return {}
 
 
-def instance_rows(rows, line):
-    if not line:
-        return []
+def replay(rows, line, row, inst, meta, inv, ctx):
     start = line - 1
     while start > 0 and rows[start]["a"] != "Reset":
         start -= 1
-    return [r for r in rows[start:line] if r["a"] != "Read"] + [rows[line - 1]]
+    return {"invariant": inv, "instance": inst, "events": [r for r in rows[start:line] if r["a"] != "Reads"], "failing": row,
+            "token_texts": {t["id"]: t.get("text") for t in meta["tokens"] if t["id"] in (inst.get("toks") or [])}, "seed": ctx.seed}
 
 
 def validate_all(ctx, cfg, trace_path, tag):
-    """trace validation with one initial state per instance and `-continue`: returns ([(invariant, failing line)], lines consumed).
+    """trace validation with one initial state per instance and `-continue`: returns ([(invariant, failing line)], [(line, failing item)], lines consumed).
     (local variant of vlib.core.validate, which stops at the first violation)"""
     r = tlc(ctx, SPEC, "Trace_BodyPaths", cfg, workers=1, env={"VERIF_TRACE": trace_path}, timeout=1800, dfs=True,
             tag="Trace-" + tag, allow_violation=True, extra=["-continue"])
-    hwm = 0
+    hwm, bads = 0, []
     for t, txt in r.printed:
         if t == "HWM":
             hwm = max(hwm, int(txt.split(",")[0]))
+        elif t == "BAD":
+            pair = tuple(int(x) for x in txt.split(","))
+            if pair not in bads:
+                bads.append(pair)
     viols = []
     blocks = re.split(r"Error: Invariant (\S+) is violated", r.out)
     for i in range(1, len(blocks), 2):
@@ -180,4 +192,4 @@ def validate_all(ctx, cfg, trace_path, tag):
             viols.append((inv, line))
     if not viols and r.error_text:
         raise Inconclusive("TLC error validating %s with %s: %s\n%s" % (trace_path, cfg, r.error_text, r.out[-1500:]))
-    return viols, hwm
+    return viols, bads, hwm
